@@ -32,6 +32,45 @@ type Case struct {
 	Enc   string `json:"enc"`
 	Nb    int    `json:"nb"` // index into neighbourhoods
 	Value string `json:"value"`
+	// Carrier: how the hostile text reaches the sink - as a plain string ("") or inside a
+	// non-string Go value whose string form contains it (named string type, []string, map,
+	// fmt.Stringer, *string, error).
+	Carrier string `json:"carrier,omitempty"`
+}
+
+type namedString string
+
+type stringerVal struct{ s string }
+
+func (s stringerVal) String() string { return s.s }
+
+var carriers = []string{"", "named", "slice", "map", "stringer", "ptr", "error", "anyslice"}
+
+// carry wraps v; it also returns the string form the sink must show.
+func carry(carrier, v string) (any, string) {
+	var x any
+	switch carrier {
+	case "named":
+		x = namedString(v)
+	case "slice":
+		x = []string{v}
+	case "anyslice":
+		x = []any{v, 1}
+	case "map":
+		x = map[string]string{"k": v}
+	case "stringer":
+		x = stringerVal{v}
+	case "ptr":
+		x = &v
+	case "error":
+		x = fmt.Errorf("%s", v)
+	default:
+		return v, v
+	}
+	if carrier == "ptr" {
+		return x, "" // prints an address: only the parse and the canary are asserted
+	}
+	return x, fmt.Sprint(x)
 }
 
 // neighbourhood: static text left/right of the sink, as template source and as decoded text.
@@ -53,7 +92,7 @@ var neighbourhoods = []nb{
 // pre, option, table cell, button, heading, ...): the matching end tag in the value must stay text.
 var containerTags = []string{"textarea", "title", "pre", "option", "td", "li", "button", "h1", "a", "label", "code", "summary"}
 
-var sinks = []string{"in:textarea", "in:title", "in:pre", "in:option", "in:td", "in:li", "in:button", "in:h1", "in:a", "in:label", "in:code", "in:summary", "text", "vtext", "attr", "bound", "vbind", "class", "style", "loop", "loopattr", "loopchild", "incstatic", "incbound", "incattr", "inctplroot", "inctplrootattr", "slotprop", "layout", "layoutattr", "ifself", "elseself"}
+var sinks = []string{"in:textarea", "in:title", "in:pre", "in:option", "in:td", "in:li", "in:button", "in:h1", "in:a", "in:label", "in:code", "in:summary", "text", "vtext", "attr", "bound", "vbind", "class", "style", "loop", "loopattr", "loopchild", "incstatic", "incbound", "incattr", "inctplroot", "inctplrootattr", "slotinc", "slotincplain", "slotprop", "layout", "layoutattr", "ifself", "elseself"}
 var encs = []string{"bare", "if", "else", "tplif", "nested", "loopchild", "elseif"}
 
 // tokens: the hostile alphabet. The first coreN are enumerated exhaustively.
@@ -90,6 +129,7 @@ type program struct {
 	attr    string            // "" = sink is the text of data-m=s; otherwise the attribute name
 	useNb   bool
 	jsonish bool // static include prop: values starting with { or [ are decoded (documented)
+	multi   bool // the sink occurs several times: only parse-equality and the canary are asserted
 }
 
 func build(c Case) program {
@@ -162,6 +202,20 @@ func build(c Case) program {
 			"page.vuego": wrap(c.Enc, `<template include="c.vuego" :p="v"></template>`),
 			"c.vuego":    `<template><div><p data-m="s" title="` + n.LS + `{{ p }}` + n.RS + `" :lang="p">{{ p }}</p></div></template>`,
 		}, attr: "title", useNb: true}
+	case "slotinc":
+		// an include given as slot content to a component that renders its slot once per row:
+		// the same include tag is evaluated several times
+		return program{files: map[string]string{
+			"page.vuego": wrap(c.Enc, `<template include="list.vuego"><template v-slot:row="r"><template include="c.vuego" :p="v" q="{{ v }}" :n="r.n"></template></template></template>`),
+			"list.vuego": `<ul><li v-for="x in rows"><slot name="row" :n="x"></slot></li></ul>`,
+			"c.vuego":    `<p data-m="s{{ n }}" title="{{ p }}" :lang="q">{{ p }}|{{ q }}</p>`,
+		}, multi: true}
+	case "slotincplain":
+		return program{files: map[string]string{
+			"page.vuego":  wrap(c.Enc, `<template include="twice.vuego"><template include="c.vuego" :p="v" q="{{ v }}"></template></template>`),
+			"twice.vuego": `<div><slot></slot><hr><slot></slot><i v-for="x in rows"><slot></slot></i></div>`,
+			"c.vuego":     `<p data-m="s" title="{{ p }}" :lang="q">{{ p }}|{{ q }}</p>`,
+		}, multi: true}
 	case "slotprop":
 		return program{files: map[string]string{
 			"page.vuego": wrap(c.Enc, `<template include="c.vuego" :p="v"><template v-slot:a="x"><p data-m="s" title="{{ x.sp }}">`+n.LS+`{{ x.sp }}`+n.RS+`</p></template></template>`),
@@ -181,20 +235,25 @@ func build(c Case) program {
 	panic("unknown sink " + c.Sink)
 }
 
-func data(v string) map[string]any {
+func data(v string) map[string]any { return dataC("", v) }
+
+func dataC(carrier, v string) map[string]any {
+	x, _ := carry(carrier, v)
 	return map[string]any{
-		"v": v, "secret": canary, "yes": true, "no": false, "one": []int{1},
-		"items": []string{v},
+		"v": x, "secret": canary, "yes": true, "no": false, "one": []int{1},
+		"items": []any{x}, "rows": []int{1, 2, 3},
 	}
 }
 
-func render(p program, v string) (string, error) {
+func render(p program, v string) (string, error) { return renderC(p, "", v) }
+
+func renderC(p program, carrier, v string) (string, error) {
 	var buf bytes.Buffer
 	var err error
 	if p.files != nil {
-		err = vuego.NewFS(memfs.FromMap(p.files)).Load("page.vuego").Fill(data(v)).Render(context.Background(), &buf)
+		err = vuego.NewFS(memfs.FromMap(p.files)).Load("page.vuego").Fill(dataC(carrier, v)).Render(context.Background(), &buf)
 	} else {
-		err = vuego.New().Fill(data(v)).RenderString(context.Background(), &buf, p.tpl)
+		err = vuego.New().Fill(dataC(carrier, v)).RenderString(context.Background(), &buf, p.tpl)
 	}
 	return buf.String(), err
 }
@@ -210,14 +269,14 @@ var baseMu sync.Mutex
 var baseCache = map[string]string{}
 
 func baseline(c Case, p program) (string, error) {
-	key := fmt.Sprintf("%s|%s|%d", c.Sink, c.Enc, c.Nb)
+	key := fmt.Sprintf("%s|%s|%d|%s", c.Sink, c.Enc, c.Nb, c.Carrier)
 	baseMu.Lock()
 	sk, ok := baseCache[key]
 	baseMu.Unlock()
 	if ok {
 		return sk, nil
 	}
-	out, err := render(p, harmless)
+	out, err := renderC(p, c.Carrier, harmless)
 	if err != nil {
 		return "", fmt.Errorf("harmless render failed: %v", err)
 	}
@@ -225,8 +284,8 @@ func baseline(c Case, p program) (string, error) {
 	if err != nil {
 		return "", err
 	}
-	if len(hx.Markers(tree)) != 1 {
-		return "", fmt.Errorf("harness: harmless render has %d sink markers, want 1: %s", len(hx.Markers(tree)), out)
+	if n := len(hx.Markers(tree)); n != 1 && !(p.multi && n > 1) {
+		return "", fmt.Errorf("harness: harmless render has %d sink markers, want 1: %s", n, out)
 	}
 	sk = hx.Skeleton(tree)
 	baseMu.Lock()
@@ -243,7 +302,7 @@ func check(c Case) error {
 	if err != nil {
 		return err
 	}
-	out, err := render(p, c.Value)
+	out, err := renderC(p, c.Carrier, c.Value)
 	if err != nil {
 		return fmt.Errorf("render with hostile value failed (harmless value renders): %v", err)
 	}
@@ -258,6 +317,15 @@ func check(c Case) error {
 		return fmt.Errorf("HTML5 parse differs from the harmless-word render\n with %q: %s\n harmless: %s\n output: %s", c.Value, got, want, out)
 	}
 	ms := hx.Markers(tree)
+	if p.multi {
+		// every occurrence must show the value literally
+		for _, m := range ms {
+			if !strings.Contains(collapse(m.Text), collapse(c.Value)) && c.Carrier == "" {
+				return fmt.Errorf("occurrence %s of the sink shows %q, which does not contain the value %q\noutput: %s", m.ID, m.Text, c.Value, out)
+			}
+		}
+		return nil
+	}
 	if len(ms) != 1 {
 		return fmt.Errorf("sink element found %d times", len(ms))
 	}
@@ -266,11 +334,18 @@ func check(c Case) error {
 	if p.useNb {
 		l, r = n.LD, n.RD
 	}
+	shown := c.Value
+	if c.Carrier != "" {
+		_, shown = carry(c.Carrier, c.Value)
+		if shown == "" || p.jsonish || p.attr == "class" {
+			return nil // only parse-equality and the canary are asserted for this carrier/sink
+		}
+	}
 	if p.jsonish && (strings.HasPrefix(strings.TrimSpace(l+c.Value+r), "{") || strings.HasPrefix(strings.TrimSpace(l+c.Value+r), "[")) {
 		return nil // documented: JSON-looking static props are decoded; only skeleton + canary apply
 	}
 	if p.attr == "" {
-		if got, exp := collapse(ms[0].Text), collapse(l+c.Value+r); got != exp {
+		if got, exp := collapse(ms[0].Text), collapse(l+shown+r); got != exp {
 			return fmt.Errorf("text run at the sink is %q, want neighbours+value %q\noutput: %s", got, exp, out)
 		}
 		return nil
@@ -282,8 +357,8 @@ func check(c Case) error {
 			return fmt.Errorf("class attribute is %q, want static class followed by the value %q", got, c.Value)
 		}
 	default:
-		if collapse(got) != collapse(l+c.Value+r) {
-			return fmt.Errorf("attribute %s at the sink is %q, want neighbours+value %q\noutput: %s", p.attr, got, l+c.Value+r, out)
+		if collapse(got) != collapse(l+shown+r) {
+			return fmt.Errorf("attribute %s at the sink is %q, want neighbours+value %q\noutput: %s", p.attr, got, l+shown+r, out)
 		}
 	}
 	return nil
@@ -295,6 +370,9 @@ func hostile(v string) bool {
 
 func classify(c Case) (bool, []string) {
 	cls := []string{"sink=" + c.Sink, "enc=" + c.Enc}
+	if c.Carrier != "" {
+		cls = append(cls, "carrier="+c.Carrier)
+	}
 	if strings.Contains(c.Value, "{{") {
 		cls = append(cls, "value-has-mustache")
 	}
@@ -368,6 +446,9 @@ func TestProp(t *testing.T) {
 				}
 				for _, e := range encList {
 					c := Case{Sink: s, Enc: e, Nb: ni, Value: v}
+					if (vi+si+ni)%3 == 0 {
+						c.Carrier = carriers[(vi+si*3+ni)%len(carriers)]
+					}
 					if !applicable(c) {
 						continue
 					}
@@ -400,10 +481,11 @@ func TestProp(t *testing.T) {
 			}
 		}
 		c := Case{
-			Sink:  rapid.SampledFrom(sinks).Draw(t, "sink"),
-			Enc:   rapid.SampledFrom(encs).Draw(t, "enc"),
-			Nb:    rapid.IntRange(0, len(neighbourhoods)-1).Draw(t, "nb"),
-			Value: sb.String(),
+			Sink:    rapid.SampledFrom(sinks).Draw(t, "sink"),
+			Enc:     rapid.SampledFrom(encs).Draw(t, "enc"),
+			Nb:      rapid.IntRange(0, len(neighbourhoods)-1).Draw(t, "nb"),
+			Value:   sb.String(),
+			Carrier: rapid.SampledFrom(carriers).Draw(t, "carrier"),
 		}
 		if !applicable(c) {
 			c.Value = "<" + c.Value
